@@ -140,7 +140,8 @@ def run_mt_cases(res, prep, cases, tag, tsan_cases=0):
                     nev += len(recs)
                     # model level: interleaved model == sequential model (thread_isolation executed)
                     cl = conc_lines[i] if i < len(conc_lines) else "<missing>"
-                    if cl != ml:
+                    ml_cmp = " ".join(x for x in ml.split(" ") if not x.startswith("marks="))
+                    if cl != ml_cmp:
                         breaks.append(f"thread {i}: drv_conc (interleaved model) '{cl[:90]}' != drv_rt '{ml[:90]}'")
                     # reference level: single-threaded library == Lean buffer model (C01's tie, re-checked here)
                     if st_out != moc or st_obs != mbytes:
